@@ -197,6 +197,11 @@ impl MutexGuard<Receiver<StreamBiRemoteWT>> {
         ensures r == feed_bi(old(self).pos@), final(self).pos@ == old(self).pos@ + 1,
     { unimplemented!() }
 }
+uninterp spec fn settings_recv_outcome() -> Option<Settings>;
+impl MutexGuard<Receiver<Settings>> {
+    #[verifier::external_body]
+    fn recv(&mut self) -> (r: Option<Settings>) ensures r == settings_recv_outcome() { unimplemented!() }
+}
 impl MutexGuard<Receiver<Datagram>> {
     #[verifier::external_body]
     fn recv(&mut self) -> (r: Option<Datagram>)
@@ -212,7 +217,14 @@ uninterp spec fn try_send_outcome(s: StreamSession) -> Result<(), TrySendError<S
 #[verifier::external_body]
 #[verifier::reject_recursive_types(T)]
 struct BiChannelEndpoint<T> { t: Option<T> }
+struct SendError;
+uninterp spec fn session_recv_outcome() -> Option<StreamSession>;
+uninterp spec fn session_send_outcome(s: StreamSession) -> Result<(), SendError>;
 impl BiChannelEndpoint<StreamSession> {
+    #[verifier::external_body]
+    fn recv(&self) -> (r: Option<StreamSession>) ensures r == session_recv_outcome() { unimplemented!() }
+    #[verifier::external_body]
+    fn send(&self, value: StreamSession) -> (r: Result<(), SendError>) ensures r == session_send_outcome(value) { unimplemented!() }
     #[verifier::external_body]
     fn try_send(&self, value: StreamSession) -> (r: Result<(), TrySendError<StreamSession>>)
         ensures
@@ -292,6 +304,26 @@ impl Driver {
 //@ nocanary
 //@ attr #[verifier::external_body]
 //@ ensures r == self.result_spec()
+//@ end
+
+// the hand-over points between the worker and the application side: a value when the worker
+// delivered one, otherwise the driver's own result (never an invented error)
+//@ extract wtransport/src/driver/mod.rs >> impl Driver >> fn accept_settings
+//@ deawait
+//@ ensures
+//@ | match settings_recv_outcome() { Some(x) => r == Ok::<Settings, DriverError>(x), None => r == Err::<Settings, DriverError>(self.result_spec()) }
+//@ end
+
+//@ extract wtransport/src/driver/mod.rs >> impl Driver >> fn accept_session
+//@ deawait
+//@ ensures
+//@ | match session_recv_outcome() { Some(x) => r == Ok::<StreamSession, DriverError>(x), None => r == Err::<StreamSession, DriverError>(self.result_spec()) }
+//@ end
+
+//@ extract wtransport/src/driver/mod.rs >> impl Driver >> fn register_session
+//@ deawait
+//@ ensures
+//@ | match session_send_outcome(stream_session) { Ok(()) => r is Ok, Err(_) => r == Err::<(), DriverError>(self.result_spec()) }
 //@ end
 
 // C17: a stream naming another session is never handed out: it is refused with
